@@ -1,5 +1,5 @@
 (* Run.v — the case record, runner and canonical printer used by generated cases_*.v (query family). *)
-From EQL Require Import Base Values Syntax Spec Elab EvalPure.
+From EQL Require Import Base Values Syntax Spec Elab EvalPure Dedup.
 
 Record qcase := {
   qc_heap : heap;
@@ -28,7 +28,18 @@ Definition run_qcase (n : nat) (c : qcase) : string :=
         | None => "X elab"
         end
     end in
-  "CASE " ++ show_nat n ++ " M " ++ model ++ " S R " ++ spec.
+  (* the D-model (Dedup.v): the exact row sequence WITH the de-duplication of rows, on its fragment *)
+  let dmodel :=
+    match qc_cond c with
+    | None => "-"
+    | Some sc =>
+        match elab sc with
+        | Some ic => if dfrag ic && forallb dterm (qc_sel c)
+                     then "R " ++ show_rows (run_queryD (qc_heap c) d (qc_sel c) (Some ic)) else "-"
+        | None => "-"
+        end
+    end in
+  "CASE " ++ show_nat n ++ " M " ++ model ++ " DD " ++ dmodel ++ " S R " ++ spec.
 
 (* the(...): consume the rows; fail on the second, fail if there is none (The._evaluate_) *)
 Definition the_outcome (rows : list (list val)) : string :=
